@@ -27,7 +27,7 @@ META = {
                 text="Real libcoap client against a real libcoap server (piggybacked, async-trigger and async-delay separate responses) and raw peers (empty ACK + separate NON/CON in either order): sequences of 1-3 requests, all schedules with <=2..4 drop/duplicate/reorder deviations and all 2^10 drop subsets for the piggybacked style, timers only when the network is empty; monitors check exactly-one conclusion per CON request, no retransmission after a response, ACK/RST of every CON response incl. duplicates, FAIL => RST, NON once per datagram.",
                 note="One exchange outstanding per session; servers answer before client timers; raw peers idempotent and token-echoing; two genuine upstream limitations are listed in known_findings.json."),
     "C08": dict(engine="vx-netsim", technique="deviation-bounded exhaustive schedule exploration of the real client against an ACK/RST-only raw peer with an in-flight monitor",
-                text="Real libcoap client session (NSTART 1..3) against a raw peer that only ACKs/RSTs what it received: all CON/NON type vectors of bursts of 1-4(5) messages in one or two bursts with a bystander session, all schedules with <=1..3 deviations (drop/duplicate/reorder, timer-first, RST or silence as verdict incl. RST for a NON); the monitor derives the in-flight set from the wire and checks |in-flight| <= NSTART at every first transmission, FIFO release of held CONs as soon as a slot frees, NON never delayed, nothing lost.",
+                text="Real libcoap client session (NSTART 1..4) against a raw peer that only ACKs/RSTs what it received: all CON/NON type vectors of bursts of 1-4(5) messages in one or two bursts with a bystander session, long bursts of 8/13/20 messages, message-id wrap inside a burst, a given-up first CON, all schedules with <=1..3 deviations (drop/duplicate/reorder, timer-first, RST or silence as verdict incl. RST for a NON); the monitor derives the in-flight set from the wire and checks |in-flight| <= NSTART at every first transmission, FIFO release of held CONs as soon as a slot frees, NON never delayed, nothing lost.",
                 note="UDP sessions; the not-yet-established clause is exercised with DTLS in C19; bound as in evidence."),
     "C09": dict(engine="vx-netsim", technique="exhaustive size/configuration sweep plus deviation-bounded schedule exploration of real block-wise client and server",
                 text="Real libcoap client and server doing Block1/Block2 on the application's behalf: fault-free sweep over body lengths around every block-size multiple x SZX x MTU x delivery mode x CON/NON, and all schedules with <=1/2 deviations for representative transfers; the receiver must get exactly the sender's body (once, or as tiling blocks), handlers only see application tokens, every datagram fits the MTU, release callbacks run exactly once.",
@@ -42,7 +42,7 @@ META = {
                 text="All sequences up to depth 5/7 of requests from distinct/identical peers, observe, async, application reference/release, time jumps across the session timeout and context teardown; session identity per peer tuple, one NEW/DEL event pair per server session, no reclamation while referenced, idle reclamation and eviction, and a leak/double-free/use-after-free-clean teardown (ASan, LSan, per-tag allocation counters).",
                 note="Bounds per evidence (old alphabet depth 5/6, enlarged alphabet with TCP peer / several observations / disconnect depth 4/5); peers <= 4 + one TCP peer."),
     "C13": dict(engine="vx-sched", technique="preemption-bounded exhaustive exploration of thread interleavings under a cooperative scheduler over the real lock operations, scheduling points inside every application callback",
-                text="Real pthreads serialised by a futex hand-off scheduler with scheduling points at every global-lock operation and I/O wait; all schedules with <=2/3 preemptions of 2-3 API threads plus an I/O thread, callbacks re-entering the API; invariants: lock ownership on entry to every *_lkd function (via -finstrument-functions), no deadlock/livelock, lock free at the end; the library is compiled with the configuration the repository's own build system emits.",
+                text="Real pthreads serialised by a futex hand-off scheduler with scheduling points at every global-lock operation and I/O wait; all schedules with <=2/3 preemptions of 2-3 API threads plus an I/O thread, callbacks re-entering the API; invariants: lock ownership on entry to every *_lkd function (via -finstrument-functions), no deadlock/livelock, lock free at the end; the library is compiled twice, with the configuration headers each of the repository's two build systems emits on the current tree (CMake configure: plain lock; autogen.sh + ./configure defaults: the recursive-check lock variant), and the whole exploration runs on both.",
                 note="Sequential consistency assumed; scheduling points at lock operations, inside callbacks, I/O waits and a sleep operation; unsynchronised accesses inside correctly locked code are not looked for (the TSan pass of the design was not built); all callback kinds incl. ping/pong/cache/release/persistence call-outs re-enter the API."),
     "C14": dict(engine="vx-inproc", technique="exhaustive product enumeration and exhaustive enumeration of exchange sequences (Observe register/cancel on two tokens) differential against an independent RFC 8613 implementation, exhaustive single-bit tampering",
                 text="Full product of message shapes x security contexts x partial IVs: libcoap's protected output must equal an independent RFC 8613 implementation (OpenSSL AES-CCM/HKDF, validated on the Appendix C vectors) byte for byte and unprotect to the original; every single-bit flip and truncation of the protected part and every one-parameter context change must be rejected.",
